@@ -29,6 +29,10 @@ def scalar(kind, kmax=64):
         return grid_float(kmax=kmax)
     if kind == 'smallint':
         return st.integers(-4, 4).map(float)
+    if kind == 'byte':      # pixel values / counts: what narrow unsigned and signed integer arrays hold
+        return st.one_of(st.integers(0, 255), st.integers(-100, 127)).map(float)
+    if kind == 'ubyte':
+        return st.integers(0, 255).map(float)
     if kind == 'pos':
         return st.integers(1, 64).map(lambda k: k / 8.0)
     return any_float()
